@@ -7,6 +7,7 @@ import os
 from harness.core import pool, tb
 
 PROOF_MODULE = "OdeVerif.Proofs.C14"
+GENERATED = ['DrawDecision', 'Constants']
 THEOREMS = ["OdeVerif.C14.drawDecision_table", "OdeVerif.C14.drawDecision_clauses", "OdeVerif.C14.drawDecision_defaults",
             "OdeVerif.C14.drawDecision_args", "OdeVerif.C14.solverName_suffix", "OdeVerif.C14.solverName_none",
             "OdeVerif.C14.benchmarks_same_stimulus", "OdeVerif.C14.benchmarks_reproducible",
